@@ -70,6 +70,58 @@ func blocksBetween(a, b *ssa.BasicBlock) map[*ssa.BasicBlock]bool {
 	return out
 }
 
+// testAndSet recognises a call whose boolean result tells exactly one of any number of concurrent
+// callers that it switched a flag: atomic Swap(true) (the winner sees false), CompareAndSwap (the
+// winner sees true), or a helper of package wire all of whose returns return such a result.
+func (c *Ctx) testAndSet(call *ssa.Call, depth int) (winsOn bool, how string, ok bool) {
+	f := core.StaticCallee(call)
+	if f == nil || f.Pkg == nil {
+		return false, "", false
+	}
+	if f.Pkg.Pkg.Path() == "sync/atomic" {
+		switch f.Name() {
+		case "Swap":
+			if cv, isC := call.Call.Args[len(call.Call.Args)-1].(*ssa.Const); isC && cv.Value != nil && cv.Value.ExactString() == "true" {
+				return false, "atomic Swap(true) returned false", true
+			}
+		case "CompareAndSwap":
+			return true, "atomic CompareAndSwap succeeded", true
+		}
+		return false, "", false
+	}
+	if depth == 0 || !c.P.InPkg(f, "wire") || f.Blocks == nil || f.Signature.Results().Len() != 1 {
+		return false, "", false
+	}
+	rets := returns(f)
+	if len(rets) == 0 {
+		return false, "", false
+	}
+	first := true
+	for _, r := range rets {
+		v := forwardLoad(r.Results[0])
+		flip := false
+		if u, isU := v.(*ssa.UnOp); isU && u.Op == token.NOT {
+			v, flip = u.X, true
+		}
+		inner, isCall := v.(*ssa.Call)
+		if !isCall {
+			return false, "", false
+		}
+		w, h, okInner := c.testAndSet(inner, depth-1)
+		if !okInner {
+			return false, "", false
+		}
+		if flip {
+			w = !w
+		}
+		if !first && w != winsOn {
+			return false, "", false
+		}
+		winsOn, how, first = w, h+" (through "+fkey(f)+")", false
+	}
+	return winsOn, how, true
+}
+
 func runC16(c *Ctx) {
 	R := c.R
 	R.Technique = "lockset (must-hold) dataflow, dominance by the winning edge of an atomic swap, must-pass-through over the CFG"
@@ -109,20 +161,9 @@ func runC16(c *Ctx) {
 				if !isCall {
 					continue
 				}
-				f := core.StaticCallee(call)
-				if f == nil || f.Pkg == nil || f.Pkg.Pkg.Path() != "sync/atomic" {
-					continue
-				}
-				switch f.Name() {
-				case "Swap":
-					// Swap(true) returning false: this caller switched the flag
-					if cv, isC := call.Call.Args[len(call.Call.Args)-1].(*ssa.Const); isC && cv.Value != nil && cv.Value.ExactString() == "true" && anyDominates(boolEdges(call, false), ci.Block()) {
-						won, why = true, "dominated by the edge on which atomic Swap(true) returned false"
-					}
-				case "CompareAndSwap":
-					if anyDominates(boolEdges(call, true), ci.Block()) {
-						won, why = true, "dominated by the edge on which atomic CompareAndSwap succeeded"
-					}
+				winsOn, how, isTAS := c.testAndSet(call, 2)
+				if isTAS && anyDominates(boolEdges(call, winsOn), ci.Block()) {
+					won, why = true, "dominated by the edge on which "+how
 				}
 			}
 			if !won && fn.Parent() != nil { // sync.Once.Do(func(){ close(ch) })
@@ -183,19 +224,33 @@ func runC16(c *Ctx) {
 	lsClose := core.Locksets(closeFn)
 	var setFlag ssa.CallInstruction
 	var waits []ssa.CallInstruction
+	setHeld := false
 	for _, ci := range core.Calls(closeFn) {
 		switch atomicOp(ci, "Server", "closing") {
 		case "Store", "Swap", "CompareAndSwap":
 			setFlag = ci
+			setHeld = lsClose[ci]["Server.mu"] == 'W'
 		}
 		if wgOp(ci) == "Wait" {
 			waits = append(waits, ci)
+		}
+		// a helper of Close that switches the flag
+		if h := core.StaticCallee(ci); h != nil && c.P.InPkg(h, "wire") && h.Blocks != nil {
+			lsH := core.Locksets(h)
+			for _, hi := range core.Calls(h) {
+				switch atomicOp(hi, "Server", "closing") {
+				case "Store", "Swap", "CompareAndSwap":
+					setFlag = ci
+					setHeld = lsH[hi]["Server.mu"] == 'W' || lsClose[ci]["Server.mu"] == 'W'
+					R.Analysed(fname(h))
+				}
+			}
 		}
 	}
 	if setFlag == nil {
 		R.Fail("C16.R2", "Close:sets-closing", c.atFn(closeFn), "Close sets the closing flag", "no atomic store to Server.closing in Close")
 	} else {
-		R.Check(lsClose[setFlag]["Server.mu"] == 'W', "C16.R2", "Close:flag-under-write-lock", c.at(setFlag), "the closing flag is switched while holding Server.mu for writing (excludes every admission critical section)", "lockset at the store contains Server.mu:W", "the closing flag is set without holding Server.mu for writing: an admission critical section can overlap it")
+		R.Check(setHeld, "C16.R2", "Close:flag-under-write-lock", c.at(setFlag), "the closing flag is switched while holding Server.mu for writing (excludes every admission critical section)", "lockset at the store contains Server.mu:W", "the closing flag is set without holding Server.mu for writing: an admission critical section can overlap it")
 		for _, w := range waits {
 			R.Check(core.InstrDominates(setFlag, w), "C16.R2", "Close:wait-after-flag", c.at(w), "Close waits for in-flight commands after the flag is set", "the flag store dominates wg.Wait", "wg.Wait is not dominated by the store of the closing flag")
 		}
@@ -230,7 +285,24 @@ func runC16(c *Ctx) {
 				doneDeferred = true
 			}
 		}
-		ok := hcall != nil && core.InstrDominates(addCall, hcall)
+		// every path to the handler passes Add (branches on the same closing-test value are correlated)
+		ok := hcall != nil
+		if ok && !core.InstrDominates(addCall, hcall) {
+			for _, assume := range []bool{false, true} {
+				var tested ssa.Value
+				if loadCall != nil {
+					tested = loadCall
+				}
+				if tested == nil {
+					ok = false
+					break
+				}
+				r0 := reachableAssuming(csc.Blocks[0], func(b *ssa.BasicBlock) bool { return b == addCall.Block() }, tested, assume)
+				if r0[hcall.Block()] {
+					ok = false
+				}
+			}
+		}
 		sameBlockDone := false
 		for _, in := range addCall.Block().Instrs {
 			if ci, isCall := in.(ssa.CallInstruction); isCall && isDone(ci) && core.InstrIndex(in) > core.InstrIndex(addCall) {
@@ -239,12 +311,13 @@ func runC16(c *Ctx) {
 		}
 		if ok && !doneDeferred && !sameBlockDone {
 			// from the instruction after Add, every path to a return passes a Done
-			r2 := reachableAvoiding(addCall.Block(), func(b *ssa.BasicBlock) bool {
+			// Add is dominated by the not-closing edge (R2), so the closing test is false on these paths
+			r2 := reachableAssuming(addCall.Block(), func(b *ssa.BasicBlock) bool {
 				if b == addCall.Block() {
 					return false
 				}
 				return blockHasCall(b, isDone)
-			})
+			}, loadCall, false)
 			for b := range r2 {
 				if _, isRet := b.Instrs[len(b.Instrs)-1].(*ssa.Return); isRet {
 					if b == addCall.Block() && blockHasCall(b, isDone) {
